@@ -1,5 +1,5 @@
 (** * C15 -- the quantum Fourier transform operators *)
-From QV Require Import Spec Expr ScalarR C15T.
+From QV Require Import Spec Expr ScalarR Form2P DftP C15T C15T2.
 
 Theorem C15_inverse : C15_inverse_stmt.
 Proof. exact C15_inverse_proof. Qed.
@@ -8,3 +8,11 @@ Print Assumptions C15_inverse.
 Theorem C15_one_bit : C15_one_bit_stmt.
 Proof. exact C15_one_bit_proof. Qed.
 Print Assumptions C15_one_bit.
+
+Theorem C15_dft : C15_dft_stmt.
+Proof. exact C15_dft_proof. Qed.
+Print Assumptions C15_dft.
+
+Theorem C15_dft_swapped : C15_dft_swapped_stmt.
+Proof. exact C15_dft_swapped_proof. Qed.
+Print Assumptions C15_dft_swapped.
